@@ -181,6 +181,7 @@ fn sweep_wrong_sizes(ctx: &Ctx, shard: &mut Shard, path: &Path, bytes: &[u8], ps
     }
     sizes.extend([ps - 9, ps + 9, ps / 2 + 1, 2 * ps - 1, 4095, 4097, 1025]);
     for other in sizes {
+        crate::report::progress();
         if other == ps {
             continue;
         }
